@@ -411,7 +411,7 @@ func c19RunBatch(c *Ctx, b *run.Batch, cases []*c19Case) {
 		if len(cc.Names) >= 3 {
 			c.Ev.Distinct(cc.Lox + fmt.Sprint(cc.G.OtherFiles))
 		}
-		if i%9 == 0 {
+		if c.Ev.WantSample() {
 			keys := []string{}
 			for fn := range cc.Files {
 				if strings.HasSuffix(fn, ".lox") {
